@@ -113,6 +113,20 @@ func (w *World) startLoad(in *Instance) {
 	in.cfg = cfg
 	w.sim.Logf("load i%d.%d", in.idx, inc)
 	go func() {
+		// a panic of the code under test is a crash of that process
+		defer func() {
+			if r := recover(); r != nil {
+				if in.inc != inc || in.dead {
+					select {}
+				}
+				w.note("panic i%d.%d: %s", in.idx, inc, clip(fmt.Sprint(r)))
+				w.smu.Lock()
+				w.sim.Probe("crash.panic")
+				w.smu.Unlock()
+				in.dead = true
+				in.crashPending = true
+			}
+		}()
 		l, err := ctlog.LoadLog(context.Background(), cfg)
 		if in.inc != inc || in.dead {
 			select {}
